@@ -418,6 +418,52 @@ def rule_f_fragcache(chk, prog):
         chk.broke("no cached fragment block tag store found")
 
 
+def rule_h_equals_reports(chk, prog):
+    """the fragment comparison callback returns bool and cannot hand an error to its caller: whenever reading the candidate
+    back fails, the failure is recorded in the processor's error field before 'not equal' is answered -- otherwise an
+    unreadable candidate is silently taken for a different one and the error never stops the run"""
+    from ..errflow import ErrModel, failure_edges
+    fs = [g for g in prog.functions() if g.name == "chunk_info_equals" and not g.decl]
+    if not fs:
+        chk.broke("chunk_info_equals not found")
+        return
+    f = fs[0].build()
+    chk.analysed(f)
+    em = ErrModel(prog)
+    n = 0
+    rec = {i.bb for i in f.insts() if i.op == "store" and _fld(i.ops[1]) == "fblk_lookup_error" and
+           not (i.ops[0].is_const and i.ops[0].is_int and i.ops[0].sval == 0)}
+    rets = {r.bb for r in f.rets()}
+    for c in f.calls():
+        if not em.call_is_err(c):
+            continue
+        n += 1
+        inst = "chunk_info_equals:%s" % (norm_callee(c.callee) or "indirect")
+        bad = None
+        edges = failure_edges(f, c)
+        if not edges:
+            chk.violation("K5-frag-report", inst, c, "the result of %s is not tested against zero" % norm_callee(c.callee))
+            continue
+        for (succ, fact) in edges:
+            seen, stack = set(), [succ]
+            while stack and bad is None:
+                b = stack.pop()
+                if b in seen or b in rec:
+                    continue
+                seen.add(b)
+                if b in rets or any(any(i.op in ("phi", "ret") for i in s_.insts) and s_ in rets for s_ in b.succs if False):
+                    bad = b
+                stack.extend(b.succs)
+        if bad is None:
+            chk.ok("K5-frag-report", inst, c, "every failure of the read-back is recorded in fblk_lookup_error before the callback returns")
+        else:
+            chk.violation("K5-frag-report", inst, bad.term, "a failure of %s can end in 'not equal' without being recorded in "
+                          "fblk_lookup_error: an I/O error while reading the candidate back is swallowed and the run goes on with a "
+                          "cache that may hold half of another block" % norm_callee(c.callee))
+    if n == 0:
+        chk.broke("chunk_info_equals no longer calls a function that can fail")
+
+
 def rule_g_truncate(chk, prog):
     """after a duplicate run was found the output file is cut at the end of the last block that is *kept*: the argument of
     truncate is computed from the block list at the updated element count (offset and size of entry used-1), not from a
@@ -481,6 +527,7 @@ def run(chk):
     rule_e_inflight(chk, prog)
     rule_f_fragcache(chk, prog)
     rule_g_truncate(chk, prog)
+    rule_h_equals_reports(chk, prog)
     chk.floor("K9-fragcache", 1)
     chk.floor("K12-compare", 1)
     chk.floor("K13-compare", 2)
